@@ -105,6 +105,22 @@ Theorem query_forms_agree : forall (sc : scorer) (fb : option scorer) ds u suppl
 Proof. exact query_forms_agree_l. Qed.
 Print Assumptions query_forms_agree.
 
+(* The ranker and the rating merger consume ONE scorer output; a run asked for several nodes (any order,
+   memoised) gives each node the result it has on its own.  In the model values are immutable, so "no
+   consumer alters an output that another consumer reads" holds by construction; for the implementation
+   it is a correspondence clause of every case (node values after multi-node runs = stand-alone values). *)
+Theorem shared_scorer_output : forall (sc f : scorer) ds i supplied config_n run_n,
+  let q := lookup_history ds i in
+  let cand := candidates ds q supplied in
+  let scores := score_items sc q cand in
+  rec_pipeline sc ds i supplied config_n run_n = topn_ranker (Some scores) run_n config_n /\
+  pred_pipeline sc (Some f) ds i supplied = fallback_scorer (of_rows scores) (of_rows (score_items f q cand)) /\
+  pred_pipeline sc None ds i supplied = of_rows scores /\
+  forall fb req nd v, In (nd, v) (run_request sc fb ds i supplied config_n run_n req []) ->
+    v = eval_node sc fb ds i supplied config_n run_n nd.
+Proof. exact shared_scorer_output_l. Qed.
+Print Assumptions shared_scorer_output.
+
 (* non-vacuity: a vocabulary of five items, a user who has seen two of them, a scorer with a tie and
    a missing score, configured length 10 overridden by a run-time length of 2 *)
 Example c03_nonvacuous :
